@@ -11,6 +11,7 @@ import (
 var engines = map[string]func([]string) int{
 	"schist": schist.Main,
 	"determ": schist.DetermMain,
+	"sync":   schist.SyncMain,
 }
 
 func main() {
